@@ -675,7 +675,7 @@ def skel(ctx, o, leafids):
         pre = '(%s %s' % (name, C.b(fn)) if fn is not None else '(%s' % name
         return '%s %s %s)' % (pre, sa, extra), '%s(%s)' % (ty.__name__, na)
 
-    vec = lambda v: ctx.qs(list(v.asarray().ravel().tolist()))
+    vec = lambda v: ctx.qs(flat(ctx, v))
     if ty is ZeroFunctional:
         return 'KZero', 'ZeroFunctional'
     if ty is ConstantFunctional:
@@ -746,7 +746,7 @@ def run_case(ctx, t, npts=2):
         o, err = None, 'BOther'
     pre = 'check_cplx' if ctx.cplx else 'check_real'
     if err is not None:
-        term = '{| c_expr := %s; c_build := %s; c_points := [] |}' % (to_coq(ctx, t), err)
+        term = '{| c_vt := vt_now; c_expr := %s; c_build := %s; c_points := [] |}' % (to_coq(ctx, t), err)
         return term, {'expr': src_skeleton(t), 'outcome': err, 'field': 'C' if ctx.cplx else 'R'}, \
             (err, src_skeleton(t)) if size(t) else None
     sk, name = skel(ctx, o, leafids)
@@ -778,7 +778,7 @@ def run_case(ctx, t, npts=2):
             res = o(xe, out=buf)
             ip = '(Some %s)' % ctx.qs(flat(ctx, buf))
         pts.append('{| p_x := %s; p_out := %s; p_ip := %s |}' % (ctx.qs(x), ctx.qs(out), ip))
-    term = ('{| c_expr := %s; c_build := BOk %s %s %s %s %s; c_points := %s |}'
+    term = ('{| c_vt := vt_now; c_expr := %s; c_build := BOk %s %s %s %s %s; c_points := %s |}'
             % (to_coq(ctx, t), sk, dterm, rterm, C.b(bool(o.is_linear)), C.b(isinstance(o, Functional)),
                C.lst(pts)))
     desc = {'expr': src_skeleton(t), 'built': name, 'is_linear': bool(o.is_linear), 'points': len(pts),
@@ -786,8 +786,25 @@ def run_case(ctx, t, npts=2):
     return term, desc, ((name, src_skeleton(t)) if size(t) else None)
 
 
+def measure_variant():
+    """Which variant of the two model-relevant findings does the code exhibit NOW
+    (each measured on the finding's own replay input)?"""
+    import odl
+    r = odl.rn(3)
+    frvec = bool((odl.solvers.ZeroFunctional(r) * r.one()).is_linear)
+    try:
+        o = odl.InnerProductOperator(r.one()) + 1.0
+        vecsum = type(o).__name__ == 'OperatorVectorSum'
+    except TypeError:
+        vecsum = False
+    return frvec, vecsum
+
+
 def correspondence(rng, tier):
-    cs = C.CaseSet('real', ['Base.Vec', 'C04.Model', 'C04.Corr'], 'check_real', 'case Q')
+    frvec, vecsum = measure_variant()
+    prelude = ('Definition vt_now : variant := {| v_frvec_lin := %s; v_vecsum_field := %s |}.'
+               % (C.b(frvec), C.b(vecsum)))
+    cs = C.CaseSet('real', ['Base.Vec', 'C04.Model', 'C04.Corr'], 'check_real', 'case Q', prelude=prelude)
     n = 450 if tier == 'quick' else 2500
     maxd = 4 if tier == 'quick' else 7
     for i in range(n):
@@ -816,7 +833,8 @@ def correspondence(rng, tier):
                     t2 = thaw(c2, freeze(t))
                     term, desc, key = run_case(c2, t2, npts=1)
                     cset.add(term, desc, key)
-    cc = C.CaseSet('complex', ['Base.Vec', 'C04.Model', 'C04.Cplx', 'C04.Corr'], 'check_cplx', 'case QC')
+    cc = C.CaseSet('complex', ['Base.Vec', 'C04.Model', 'C04.Cplx', 'C04.Corr'], 'check_cplx', 'case QC',
+                   prelude=prelude)
     for i in range(n // 3):
         ctx = Ctx(rng, True)
         depth = rng.randint(1, maxd)
